@@ -626,6 +626,9 @@ class RedlineEngine:
         Keeps the recorded ranges in the coordinates of the rebuilt map and records the region the
         edit just applied occupies (its match plus the markup it produced).
         """
+        if before == after:
+            # The edit changed nothing (target == new text): only its match is occupied.
+            return ranges + ([matched] if matched is not None else [])
         limit = min(len(before), len(after))
         lcp = 0
         while lcp < limit and before[lcp] == after[lcp]:
